@@ -278,3 +278,25 @@ Definition simplify (sets : list (list pcmp)) : list (list pcmp) :=
 (* Range.test *)
 Definition satisfies (r : nrange) (v : sv) : bool :=
   existsb (fun s => set_test s v) (simplify (map desugar_item r)).
+
+(* ---------------------------------------------------------------- a witness of non-emptiness *)
+(* Candidates near the bounds of the desugared comparators: the least element of a non-empty
+   comparator set is the global minimum, a >= bound, the successor of a > bound, or the first
+   admissible prerelease of a tagged comparator's major.minor.patch.  witness r returns a version
+   that satisfies r, if one of the candidates does; it answers the clause of the property about
+   requirements the reference accepts as non-empty without depending on which versions a test
+   happens to probe. *)
+Definition near (b : sv) : list sv :=
+  [ b;
+    mk_sv (sv_major b) (sv_minor b) (sv_patch b) [];
+    mk_sv (sv_major b) (sv_minor b) (sv_patch b + 1) [];
+    mk_sv (sv_major b) (sv_minor b) (sv_patch b) (sv_pre b ++ [INum 0]);
+    mk_sv (sv_major b) (sv_minor b) (sv_patch b) [INum 0] ].
+
+Definition pcmp_candidates (c : pcmp) : list sv :=
+  match c with PAny => [] | PCmp _ b => near b end.
+
+Definition candidates (r : nrange) : list sv :=
+  mk_sv 0 0 0 [] :: flat_map (fun i => flat_map pcmp_candidates (desugar_item i)) r.
+
+Definition witness (r : nrange) : option sv := find (fun v => satisfies r v) (candidates r).
